@@ -1,3 +1,5 @@
+pub mod corrupt;
+pub mod crash;
 pub mod model;
 pub mod table;
 
@@ -8,6 +10,10 @@ use std::path::Path;
 pub fn dispatch(cmd: &str, args: &Args) -> i32 {
     match cmd {
         "table" => table::cmd(args),
+        "corrupt" => corrupt::cmd(args),
+        "corrupt-worker" => corrupt::worker(args),
+        "crashrun" => crash::crashrun(args),
+        "crashcheck" => crash::crashcheck(args),
         _ => {
             eprintln!("unknown command {cmd:?}; commands: model, table, replay");
             2
@@ -18,6 +24,7 @@ pub fn dispatch(cmd: &str, args: &Args) -> i32 {
 pub fn replay_other(engine: &str, j: &J, scratch: &Path) -> i32 {
     match engine {
         "table" => table::replay(j, scratch),
+        "corrupt" => corrupt::replay(j, scratch),
         _ => {
             eprintln!("replay: unknown engine {engine:?}");
             2
